@@ -1,5 +1,5 @@
 """Registry: property id -> check function(res, tier, seed, replay)."""
-import p_mcb, p_comp, p_vec, p_approx, p_tbb, p_hist, p_mpi
+import p_mcb, p_comp, p_vec, p_approx, p_tbb, p_hist, p_mpi, p_dimacs
 REGISTRY = {}
 LEVEL = {}
 REGISTRY.update(p_mcb.REGISTRY)
@@ -9,3 +9,4 @@ REGISTRY.update(p_approx.REGISTRY)
 REGISTRY.update(p_tbb.REGISTRY)
 REGISTRY.update(p_hist.REGISTRY)
 REGISTRY.update(p_mpi.REGISTRY)
+REGISTRY.update(p_dimacs.REGISTRY)
